@@ -104,7 +104,7 @@ class C10(InputProp):
         # single tokens of every class around the sizes at which a narrower length field would wrap (2^8, 2^15, 2^16, 2^17)
         long_ = Product(sorted(LONG_TOKENS), LONG_SIZES if tier != "quick" else [s for s in LONG_SIZES if s <= 70000], ["alone", "between"], name="long")
         # the scanner releases the interpreter lock: a free-running pass with two OS threads inside it at once (rounds per pair)
-        threads = Product(sorted(THREAD_TEXTS), [300 if tier == "quick" else 3000], name="threads")
+        threads = Product(sorted(THREAD_TEXTS), [300 if tier == "quick" else 1000], name="threads")
         if tier == "quick":
             self.space = Concat(Seqs(SIGMA_S, 3, name="sigma"), Seqs(SIGMA_REWIND, 5, minlen=4, name="rewind"), long_, threads)
         else:
@@ -134,9 +134,16 @@ class C10(InputProp):
         problems = []
         start = threading.Barrier(len(texts))
 
+        done = [0] * len(texts)
+        import time as _time
+
         def work(i):
             start.wait()
+            stop_at = _time.time() + 4.0  # (well inside the per-case watchdog, however loaded the machine is)
             for r in range(rounds):
+                if _time.time() > stop_at:
+                    return
+                done[i] += 1
                 got = self.scan(texts[i])
                 if got != want[i]:
                     problems.append((i, r, len(got), len(want[i])))
@@ -151,7 +158,7 @@ class C10(InputProp):
             i, r, ng, nw = sorted(problems)[0]
             viol.append({"sig": "concurrent-scan-differs", "msg": "thread %d, round %d: scanning a %d-character text while another thread scans a different one gave %d tokens, "
                          "single-threaded it gives %d (texts %s)" % (i, r, len(texts[i]), ng, nw, pair)})
-        return {"key": ("threads", pair, bool(viol)), "steps": rounds * len(texts), "viol": viol, "counters": {"free_running_thread_rounds": rounds * len(texts)}}
+        return {"key": ("threads", pair, bool(viol)), "steps": sum(done), "viol": viol, "counters": {"free_running_thread_rounds": sum(done)}}
 
     def run_case(self, case):
         fam, lex = case
